@@ -111,6 +111,14 @@ impl GenericsAnalyzer {
     }
 
     pub fn analyze_fn_deps(&mut self, input_sig: InputSig<'_>, opts: &Opts) -> syn::Result<FnDeps> {
+        // A method cannot be entraited, with or without `no_deps`
+        if let Some(syn::FnArg::Receiver(receiver)) = input_sig.inputs.first() {
+            return Err(syn::Error::new(
+                receiver.span(),
+                "Function cannot have a self receiver",
+            ));
+        }
+
         if opts.no_deps_value() {
             return self.deps_with_generics(FnDeps::NoDeps, &input_sig.generics);
         }
